@@ -6,6 +6,8 @@ from the seed, executed against the real PandoraMachine, and compared operation 
 and the expected executed-step history.
 """
 import copy
+import random
+import hashlib
 import itertools
 import os
 import sys
@@ -228,6 +230,33 @@ class C01:
             h = sc["history"]
             first_run = h.index("run")
             h.insert(first_run, "prior_check")
+        # ... or a near-twin of this pipeline: the same steps under the same names, one parameter of one step changed; the
+        # twin is checked and run first, then this pipeline, which must give what a brand-new machine gives. (Decided from
+        # a hash of the program, not from the random stream: every other scenario keeps its content.)
+        hh = hashlib.sha256(harness.jdump(prog).encode()).digest()
+        if accept and cls != "enum" and "run" in hist and hh[0] < 48:
+            g = random.Random(int.from_bytes(hh[1:9], "big"))
+            tw = programs.twin_tweaks(g, prog, w)
+            kinds_p = [programs.kind_of(n) for n, _ in prog]
+            can_validate = w["disp"]["kind"] == "scalar" or w.get("disp_right")
+            prior = None
+            if "validation" not in kinds_p and "disparity" in kinds_p and can_validate and (not tw or hh[9] < 110):
+                # ... or this pipeline plus a validation step: what the earlier pipeline asked for on the right image
+                # must not be done for this one
+                prior = copy.deepcopy(prog)
+                mi = kinds_p.index("multiscale") if "multiscale" in kinds_p else len(prior)
+                prior.insert(g.randint(kinds_p.index("disparity") + 1, mi),
+                             ["validation.prior", {"validation_method": "cross_checking_accurate"}])
+            elif tw:
+                si, k_, v_ = g.choice(tw)
+                prior = copy.deepcopy(prog)
+                prior[si][1][k_] = v_
+            if prior is not None:
+                sc["prior"] = prior
+                sc["history"] = ["prior_check", "prior_run"] + [x for x in hist if not x.startswith("prior_")]
+                if "run_fresh" not in sc["history"]:
+                    sc["history"].append("run_fresh")
+                sc["twin_prior"] = True
         return sc
 
     # -----------------------------------------------------------------------------------------------------------
